@@ -16,6 +16,7 @@ import (
 	"crypto/sha1" //nolint:gosec
 	"crypto/sha256"
 	"encoding/binary"
+	"encoding/hex"
 	"hash"
 	"testing"
 
@@ -26,6 +27,40 @@ import (
 )
 
 const c10SiteCBC = "pkg/crypto/ciphersuite/cbc.go hmacCID"
+
+// c10CorpusF8 replays the recorded failing input of former defect F8 (cbc.go hmacCID MACed the inner
+// plaintext twice; fixed by "fix: MAC the inner plaintext once in CBC records with a connection ID").
+// It runs first; the MAC must equal the recorded RFC 9146 section 5.1 value and a record built per the
+// RFC must be accepted.
+func c10CorpusF8(t *testing.T, out *c10Out) {
+	t.Helper()
+	unhex := func(s string) []byte {
+		b, err := hex.DecodeString(s)
+		if err != nil {
+			t.Fatal(err)
+		}
+
+		return b
+	}
+	macKey := unhex("16f397e8287872ad6dcb3f1fbd459f457d7df808")
+	inner := unhex("065fedd1f622c061b0d3af75a7cad4954b6b2805a51c96386903b879f5460bb3ae14000000")
+	cid := unhex("d094")
+	const epoch, seq = 2, 207586922106103
+	key, iv := bytes.Repeat([]byte{0x42}, 32), bytes.Repeat([]byte{0x24}, 16)
+	c, err := NewCBC(key, iv, macKey, key, iv, macKey, sha1.New)
+	if err != nil {
+		t.Fatal(err)
+	}
+	mac, err := c.hmacCID(epoch, seq, protocol.Version1_2, inner, macKey, sha1.New, cid)
+	if err != nil {
+		t.Fatal(err)
+	}
+	out.site = c10SiteCBC
+	out.expect = "a0bb6f43f25fb0857814167e55a5238625329af5"
+	out.emit(26, 1, "regression F8: CBC connection-ID MAC (RFC 9146 5.1)", [][]byte{macKey, inner, cid},
+		[]uint64{epoch, seq, 0xfefd}, [][]byte{mac})
+	out.site, out.expect = "", ""
+}
 
 type c10Rec struct {
 	hdr     recordlayer.Header
@@ -151,6 +186,7 @@ func TestVerifC10Suite(t *testing.T) {
 	if c10Thorough() {
 		n = 1000
 	}
+	c10CorpusF8(t, out)
 	for i := 0; i < n; i++ {
 		// --- additional data, called directly (also with sequence numbers beyond 48 bits)
 		hd := recordlayer.Header{
@@ -361,14 +397,11 @@ func c10CBC(t *testing.T, r *c10Rand, out *c10Out, withCID bool) {
 	nn := rec.nums()
 	cidNums := []uint64{nn[0], nn[1], nn[3]}
 	const tagRFC = "CBC connection-ID MAC (RFC 9146 5.1)"
-	out.note = "fn 26/28/30 compare with RFC 9146 section 5.1; fn 27/29 with the input cbc.go actually " +
-		"authenticates (RFC input followed by the inner plaintext a second time)"
 	out.emit(26, h.code, tagRFC, [][]byte{macKey, rec.payload, rec.cid}, cidNums, [][]byte{mac})
-	out.emit(27, h.code, "CBC.hmacCID (as coded)", [][]byte{macKey, rec.payload, rec.cid}, cidNums, [][]byte{mac})
-	out.emit(28, h.code, tagRFC, [][]byte{macKey, rec.payload, rec.cid}, cidNums, [][]byte{plain, got[:hsz]})
-	out.emit(29, h.code, "CBC.Encrypt cid (as coded)", [][]byte{macKey, rec.payload, rec.cid}, cidNums,
+	out.emit(28, h.code, "CBC.Encrypt cid (RFC 9146 5.1)", [][]byte{macKey, rec.payload, rec.cid}, cidNums,
 		[][]byte{plain, got[:hsz]})
-	out.emit(34, h.code, "CBC.Encrypt cid (whole record, MAC as coded)",
+	// the whole record given the explicit IV the library drew, computed by the model alone
+	out.emit(34, h.code, "CBC.Encrypt cid (whole record)",
 		[][]byte{key, macKey, body[:16], rec.cid, rec.payload}, cidNums, [][]byte{got})
 
 	// a record built exactly as RFC 9146 section 5.1 prescribes (MAC input emitted and compared
@@ -402,8 +435,8 @@ func c10CBC(t *testing.T, r *c10Rand, out *c10Out, withCID bool) {
 	if dec, err := c.Decrypt(dh, wire); err == nil && bytes.Equal(dec[hsz:], rec.payload) {
 		accepted = []byte{1}
 	}
-	out.emit(30, h.code, tagRFC, [][]byte{macKey, rec.payload, rec.cid}, cidNums, [][]byte{in, pt, accepted})
-	out.note = ""
+	out.emit(30, h.code, "CBC.Decrypt of an RFC 9146 5.1 record", [][]byte{macKey, rec.payload, rec.cid}, cidNums,
+		[][]byte{in, pt, accepted})
 }
 
 // TestVerifC10CCMMode compares pion's own CCM mode (pkg/crypto/ccm, over the stdlib AES block) and
